@@ -107,6 +107,13 @@ class C06(common.Prop):
             "D": mk_file(r, ["bodz", "hanb"], [3, 2], 4, 2, 4),       # equal-length header, different content
         }
         assert len(self.files["A"]) - 4 * 2 * 5 * 4 - 4 * 5 * 4 == len(self.files["D"]) - 4 * 2 * 5 * 4 - 4 * 5 * 4
+        # legacy twin of A: byte-identical dimensions and components, version 0.1 and the v0.1 body layout
+        a = self.files["A"]
+        import struct as _st
+        hdr_len = len(a) - 10 - 4 * 4 * 5 * 3          # F=4, P=1, T=5, D=2: data 4*(F*T*D) + conf 4*(F*T) bytes after the 10 info bytes
+        assert hdr_len > 0
+        v01 = list(_st.pack("<f", 0.1)) + a[4:hdr_len] + list(_st.pack("<HHH", 25, 4, 1)) + a[hdr_len + 10:]
+        self.files["A01"] = v01
         self.names = sorted(self.files)
 
     def gen_cases(self, rng, tier):
@@ -152,24 +159,37 @@ class C06(common.Prop):
         results = []       # (pose, snapshot after creation / own mutations, mutated?)
         for st in case["steps"]:
             if st[0] == "read":
-                p = self._read(st[1], st[2], st[3])
+                try:
+                    p = self._read(st[1], st[2], st[3])
+                except Exception as e:          # a read that raises hands nothing out (the slot stays, so indexes keep their meaning)
+                    results.append([None, ["err", type(e).__name__], ("read", st[1], st[2], st[3])])
+                    continue
                 results.append([p, pg.dump_pose(p), ("read", st[1], st[2], st[3])])
             elif st[0] == "copy":
+                if results[st[1]][0] is None:
+                    results.append([None, ["err", "no-source"], ("copy", st[1])])
+                    continue
                 p = results[st[1]][0].copy()
                 results.append([p, pg.dump_pose(p), ("copy", st[1])])
-            else:
+            elif results[st[1]][0] is not None:
                 apply_mutator(results[st[1]][0], st[2])
                 results[st[1]][1] = pg.dump_pose(results[st[1]][0])
-        probe = self._read(*case["probe"])
-        probe_dump = pg.dump_pose(probe)
+
+        def safe_probe():
+            try:
+                pp = self._read(*case["probe"])
+                return pp, pg.dump_pose(pp)
+            except Exception as e:
+                return None, ["err"]
+        probe, probe_dump = safe_probe()
         # what the same read returns in a fresh process state
         PoseHeaderCache.clear_cache()
-        fresh = pg.dump_pose(self._read(*case["probe"]))
+        fresh = safe_probe()[1]
         # every earlier result must still be what it was after its own last mutation
-        changed = [i for i, (p, snap, _) in enumerate(results) if pg.dump_pose(p) != snap]
+        changed = [i for i, (p, snap, _) in enumerate(results) if p is not None and pg.dump_pose(p) != snap]
         # aliasing graph
         shared = []
-        allp = [r[0] for r in results] + [probe]
+        allp = [r[0] for r in results if r[0] is not None] + ([probe] if probe is not None else [])
         for i in range(len(allp)):
             for j in range(i + 1, len(allp)):
                 ids_i = {id(o): n for n, o in header_objects(allp[i])}
@@ -193,10 +213,12 @@ class C06(common.Prop):
             if st[0] == "read":
                 ops.append([self.names.index(st[1]), 0 if st[2] == "bytes" else 1, pg.args_tree(st[3])])
         f, kind, args = case["probe"]
+        if f == "A01":
+            return None          # the byte-layer runner has no legacy decoders: v0.1 probes are judged by the oracle only
         ops.append([self.names.index(f), 0 if kind == "bytes" else 1, pg.args_tree(args)])
         rep = runner.ask([5, files, ops])
         r = pg.result_of_tree(rep[-1][0], pg.pose_of_tree)
-        return {"probe": r[1] if r[0] == "ok" else None}
+        return {"probe": r[1] if r[0] == "ok" else ["err"]}
 
     def compare(self, case, io, mo):
         return None if io == mo else "probe read differs from the model's history-threaded read"
@@ -205,6 +227,8 @@ class C06(common.Prop):
     def oracle(self, case):
         r = case["_impl"]
         if r["probe"] != r["fresh"]:
+            if isinstance(r["probe"], list) or isinstance(r["fresh"], list):
+                return {"what": "the same read raises in one memo state and returns a pose in another", "kind": "history-dependent", "fields": ["raises"]}
             diff = [k for k in r["fresh"] if r["probe"].get(k) != r["fresh"][k]]
             return {"what": "the same read returns a different pose after the history (fields %s)" % diff, "kind": "history-dependent", "fields": diff}
         if r["changed"]:
@@ -214,7 +238,12 @@ class C06(common.Prop):
         return None
 
     def classify(self, case, f):
-        return f.get("kind", "other")
+        k = f.get("kind", "other")
+        f_, kind, args = case["probe"]
+        if k == "history-dependent" and f_ == "A01" and kind == "stream" and args:
+            # v0.1 frame count derived from the bytes fetched so far (prefetch length depends on the memo): C04's F4(i)
+            return "history-dependent-v01-stream-window"
+        return k
 
 
 PROP = C06
